@@ -110,6 +110,35 @@ func monC04(c *drv.Ctx) {
 		}
 	})
 
+	// (2b) megabytes consumed and peeked between two Releases, in many pieces, every slice kept: whatever bound an
+	// implementation puts on its buffer, what was handed out stays valid and in order until Release
+	megaTotals := []int{1<<20 + 4097, 2<<20 + 1, 5 << 20}
+	c.Stage("megabytes-between-releases", int64(len(megaTotals)*2*3), true, func(cs *drv.Case) {
+		total := megaTotals[cs.Idx%int64(len(megaTotals))]
+		piece := []int{65536, 300000}[(cs.Idx/int64(len(megaTotals)))%2]
+		sched := []int{doubles.SchedHuge, doubles.SchedBuf, doubles.SchedRandom}[cs.Idx/int64(len(megaTotals)*2)]
+		var ops []rOp
+		for acc, k := 0, 0; acc < total; acc, k = acc+piece, k+1 {
+			switch k % 4 {
+			case 0:
+				ops = append(ops, rOp{Kind: opPeek, N: piece / 2}, rOp{Kind: opNext, N: piece})
+			case 1:
+				ops = append(ops, rOp{Kind: opNext, N: piece})
+			case 2:
+				ops = append(ops, rOp{Kind: opReadBinary, N: piece})
+			default:
+				ops = append(ops, rOp{Kind: opSkip, N: piece - 7}, rOp{Kind: opNext, N: 7})
+			}
+		}
+		ops = append(ops, rOp{Kind: opRelease}, rOp{Kind: opNext, N: 5}, rOp{Kind: opPeek, N: 9000}, rOp{Kind: opRelease})
+		need := sumOps(ops) + 20000
+		spec := srcSpec{Len: need, ErrAt: need, Sched: sched}
+		cs.Desc = M{"pieces": len(ops) - 4, "piece_bytes": piece, "between_releases": total, "source": spec.desc()}
+		runReaderHistory(cs, ops, spec, readerOpts{retain: true})
+		cs.Count(true, "mega", total, piece, sched)
+		cs.C.Obs("histories with more than 1 MiB between two Releases", 1)
+	})
+
 	// (3) short streams: every error position x {with data, after data} x error kind
 	c.Stage("error-positions", 65*66/2*2*3, true, func(cs *drv.Case) {
 		// enumerate (L, errAt<=L, withData, kind)
